@@ -171,7 +171,7 @@ pick_colliding_uids(void)
 }
 
 /* ---------------- events ---------------- */
-enum {E_ADD, E_CANCEL, E_TICK_ONTIME, E_TICK_IDLE, E_TICK_LATE, E_EXIT, E_LIST, E_SCHED, E_ADDOWN, E_ADD2, E_TICK_EXACT, E_TICK_FAIL, E_STOP, E_TICKX};
+enum {E_ADD, E_CANCEL, E_TICK_ONTIME, E_TICK_IDLE, E_TICK_LATE, E_EXIT, E_LIST, E_SCHED, E_ADDOWN, E_ADD2, E_TICK_EXACT, E_TICK_FAIL, E_STOP, E_TICKX, E_ADDGONE};
 struct ev_s {
 	int kind;
 	int user;	/* index into users[] */
@@ -249,6 +249,7 @@ evname(char *buf, size_t bsz, const struct ev_s *e)
 	case E_ADD: snprintf(buf, bsz, "ADD(%u,%s,%s)", users[e->user], uids[e->uid], tpls[e->arg].name); break;
 	case E_ADDOWN: snprintf(buf, bsz, "ADD(%u,%s,%s,owner=%s)", users[e->user], uids[e->uid], tpls[e->arg].name, e->arg2 == 1 ? "self" : e->arg2 == 2 ? "other" : e->arg2 == 3 ? "self-by-name" : e->arg2 == 4 ? "other-by-name" : "uid-without-passwd-entry"); break;
 	case E_ADD2: snprintf(buf, bsz, "ADD2(%u,%s+%s,%s)", users[e->user], uids[e->uid], uids[e->arg2], tpls[e->arg].name); break;
+	case E_ADDGONE: snprintf(buf, bsz, "ADD(%u,%s,%s; the client is gone before the reply)", users[e->user], uids[e->uid], tpls[e->arg].name); break;
 	case E_CANCEL: snprintf(buf, bsz, "CANCEL(%u,%s)", users[e->user], uids[e->uid]); break;
 	case E_TICK_ONTIME: snprintf(buf, bsz, "TICK(on-time)"); break;
 	case E_TICK_IDLE: snprintf(buf, bsz, "TICK(idle)"); break;
@@ -267,7 +268,7 @@ evname(char *buf, size_t bsz, const struct ev_s *e)
 static const char*
 evkind(const struct ev_s *e)
 {
-	static const char *const k[] = {"ADD", "CANCEL", "TICK-ontime", "TICK-idle", "TICK-late", "EXIT", "LIST", "SCHED", "ADDOWN", "ADD2", "TICK-exact", "TICK-spawnfail", "STOP", "TICK+EXIT"};
+	static const char *const k[] = {"ADD", "CANCEL", "TICK-ontime", "TICK-idle", "TICK-late", "EXIT", "LIST", "SCHED", "ADDOWN", "ADD2", "TICK-exact", "TICK-spawnfail", "STOP", "TICK+EXIT", "ADD-client-gone"};
 	return k[e->kind];
 }
 
@@ -369,6 +370,8 @@ enabled(struct ev_s *ev, int max)
 			} else if (prop == 11 && narrow) {
 				/* adds and listings only: room for the longer histories that the per-user checkpoint bookkeeping needs */
 				PUSH(E_ADD, u, k, 0);
+				/* ... and an add whose sender does not wait for the answer */
+				if (k == 0) PUSH(E_ADDGONE, u, k, 0);
 			} else {
 				PUSH(E_ADD, u, k, 0);
 				PUSH(E_ADD, u, k, 2);
@@ -550,6 +553,7 @@ apply(const struct ev_s *e)
 
 	switch (e->kind) {
 	case E_ADD:
+	case E_ADDGONE:
 	case E_ADDOWN:
 	case E_ADD2: {
 		const unsigned u = users[e->user];
@@ -579,6 +583,7 @@ apply(const struct ev_s *e)
 			nins = 2;
 		}
 		o += (size_t)snprintf(req + o, sizeof(req) - o, "END:VCALENDAR\n");
+		hx_client_gone = e->kind == E_ADDGONE;
 		hx_request(&rp, u, req, o);
 		/* model */
 		int expsucc = 0, expfail = 0;
@@ -597,7 +602,10 @@ apply(const struct ev_s *e)
 				expsucc++;
 			}
 		}
-		if (rp.nsucc != expsucc || rp.nfail != expfail) {
+		if (e->kind == E_ADDGONE) {
+			/* nobody is there to read a reply */
+			;
+		} else if (rp.nsucc != expsucc || rp.nfail != expfail) {
 			snprintf(shape, sizeof(shape), "%s/%s", k, rp.nsucc + rp.nfail != nins ? "count" : rp.nsucc > expsucc ? "accepted" : "refused");
 			report("reply", shape, "%d instruction(s): %d success / %d failure replies, expected %d / %d", nins, rp.nsucc, rp.nfail, expsucc, expfail);
 		} else {
@@ -1503,6 +1511,85 @@ sweep_unlimited(int K)
 	VT->traces++;
 }
 
+/* The limit must survive the way a task really travels: `echsq add' reads the user's file and sends what
+ * echs_task_icalify() prints; echsd's checkpoint prints the same way and a restarted daemon reads that.  For every
+ * combination of the three mail flags (absent / 0 / 1 each) a task with MAX-SIMUL:1 is parsed, printed, and the
+ * printed text is what the daemon gets (once more printed and parsed for the second trip): two on-time ticks, the
+ * second occurrence must be reported as not run. */
+static void
+sweep_via_echsq(int combo, int trips)
+{
+	static const char *const fl[] = {"X-ECHS-MAIL-OUT", "X-ECHS-MAIL-ERR", "X-ECHS-MAIL-RUN"};
+	char text[2048], back[4096], st0[32], shape[96], flags[96] = "";
+	struct hx_reply_s rp;
+	size_t o;
+	int c = combo;
+
+	tpl_stamp(st0, sizeof(st0), HX_T0 + 1);
+	o = (size_t)snprintf(text, sizeof(text), "BEGIN:VCALENDAR\nVERSION:2.0\nBEGIN:VEVENT\nUID:X\nSUMMARY:job\nDTSTART:%s\nRRULE:FREQ=SECONDLY;COUNT=6\n", st0);
+	for (int i = 0; i < 3; i++, c /= 3) {
+		if (c % 3) {
+			o += (size_t)snprintf(text + o, sizeof(text) - o, "%s:%d\n", fl[i], c % 3 - 1);
+			snprintf(flags + strlen(flags), sizeof(flags) - strlen(flags), "%s%s:%d", flags[0] ? " " : "", fl[i] + 7, c % 3 - 1);
+		}
+	}
+	o += (size_t)snprintf(text + o, sizeof(text) - o, "X-ECHS-MAX-SIMUL:1\nEND:VEVENT\nEND:VCALENDAR\n");
+	snprintf(hist, sizeof(hist), "task with MAX-SIMUL:1 and %s, printed as echsq add does (%d trip%s), ADD, two on-time ticks", flags[0] ? flags : "no mail flags", trips, trips > 1 ? "s" : "");
+	vd_desc("%s", hist);
+	snprintf(shape, sizeof(shape), "via-echsq/%s", combo == 0 ? "no-flags" : "mail-flags");
+	for (int trip = 0; trip < trips; trip++) {
+		ical_parser_t pp = NULL;
+		echs_instruc_t ins;
+		echs_task_t t = NULL;
+		const int fd = (int)syscall(SYS_memfd_create, "hx-echsq", 0U);
+		ssize_t n;
+		if (echs_evical_push(&pp, text, o) >= 0) {
+			for (;;) {
+				ins = echs_evical_pull(&pp);
+				if (ins.v != INSVERB_SCHE) break;
+				if (ins.t != NULL && t == NULL) t = ins.t;
+			}
+		}
+		ins = echs_evical_last_pull(&pp);
+		if (t == NULL || fd < 0) {
+			report("reply", shape, "the task text yields no task (trip %d)", trip + 1);
+			return;
+		}
+		echs_icalify_init(fd, (echs_instruc_t){INSVERB_SCHE});
+		echs_task_icalify(fd, t);
+		echs_icalify_fini(fd);
+		n = pread(fd, back, sizeof(back) - 1, 0);
+		close(fd);
+		free_echs_task(t);
+		if (n <= 0) {
+			report("reply", shape, "nothing printed (trip %d)", trip + 1);
+			return;
+		}
+		back[n] = '\0';
+		memcpy(text, back, (size_t)n + 1);
+		o = (size_t)n;
+	}
+	hx_request(&rp, 1000, text, o);
+	if (rp.nsucc != 1) {
+		report("reply", shape, "the printed task was refused");
+		return;
+	}
+	for (int k = 1; k <= 2; k++) {
+		int before = hx_nspawns;
+		hx_tick(HX_T0 + k + 0.001);
+		VT->transitions++;
+		if (hx_nspawns != before + 1) {
+			report("spawn-count", shape, "tick %d: %d spawns instead of 1", k, hx_nspawns - before);
+			return;
+		}
+		if (hx_spawns[hx_nspawns - 1].nd != (k > 1)) {
+			report("spawn-mode", shape, "limit 1, %d job alive: occurrence %d was started %s", k - 1, k, hx_spawns[hx_nspawns - 1].nd ? "with the no-run flag" : "for real");
+			return;
+		}
+	}
+	VT->traces++;
+}
+
 /* a limit on the calendar is a default only: an event's own limit wins, an event without one inherits */
 static void
 sweep_inherit(int which)
@@ -1635,8 +1722,76 @@ enumerate(void)
 		}
 		return;
 	}
+	if (!strcmp(vd_opt("mode", "explore"), "arm")) {
+		/* C08, the daemon's wake-up timestamp as the daemon really computes it: for every day of the years
+		 * y0..y1 a one-shot task is queued twice, once for the day as a DATE, once for a second of that day; what
+		 * libev is armed for must be that very second (own civil arithmetic), for the all-day task a second of that
+		 * day.  One case per year; the daemon lives from T0 = t0 (give t0=0 to have 1970..2099 in the future). */
+		const int y0 = (int)vd_opt_l("y0", 1971), y1 = (int)vd_opt_l("y1", 2099);
+		static const int mdays[] = {31, 28, 31, 30, 31, 30, 31, 31, 30, 31, 30, 31};
+		for (int y = y0; y <= y1; y++) {
+			if (!vd_next()) continue;
+			vd_shape("arm/%s", y % 4 ? "common-year" : "leap-year");
+			memset(VT, 0, sizeof(*VT));
+			fflush(stdout);
+			pid_t c = fork();
+			if (c == 0) {
+				prctl(PR_SET_PDEATHSIG, SIGKILL);
+				for (int m = 1; m <= 12; m++) {
+					const int nd = mdays[m - 1] + (m == 2 && !(y % 4) && (y % 100 || !(y % 400)));
+					for (int d = 1; d <= nd; d++) {
+						/* days from civil, Howard Hinnant's formula */
+						const long yy = y - (m <= 2), era = (yy >= 0 ? yy : yy - 399) / 400;
+						const long yoe = yy - era * 400, doy = (153 * (m + (m > 2 ? -3 : 9)) + 2) / 5 + d - 1;
+						const long doe = yoe * 365 + yoe / 4 - yoe / 100 + doy, z = era * 146097 + doe - 719468;
+						/* a second of the day that moves with the date */
+						const long sod = (z * 7919L + 1L) % 86400L;
+						for (int allday = 0; allday < 2; allday++) {
+							char req[512];
+							struct hx_reply_s rp;
+							struct hx_task_s obs[HX_MAXTASKS];
+							size_t o;
+							if (allday) {
+								o = (size_t)snprintf(req, sizeof(req), "BEGIN:VCALENDAR\nVERSION:2.0\nMETHOD:PUBLISH\nBEGIN:VEVENT\nUID:X\nSUMMARY:job\nDTSTART;VALUE=DATE:%04d%02d%02d\nEND:VEVENT\nEND:VCALENDAR\n", y, m, d);
+							} else {
+								o = (size_t)snprintf(req, sizeof(req), "BEGIN:VCALENDAR\nVERSION:2.0\nMETHOD:PUBLISH\nBEGIN:VEVENT\nUID:X\nSUMMARY:job\nDTSTART:%04d%02d%02dT%02ld%02ld%02ldZ\nEND:VEVENT\nEND:VCALENDAR\n", y, m, d, sod / 3600, sod / 60 % 60, sod % 60);
+							}
+							snprintf(hist, sizeof(hist), "ADD(X, one-shot on %04d-%02d-%02d%s) at T0=%.0f", y, m, d, allday ? " (DATE)" : " at a given second", HX_T0);
+							vd_desc("%s", hist);
+							hx_request(&rp, 1000, req, o);
+							VT->transitions++;
+							if (rp.nsucc != 1 || hx_observe(obs) != 1) {
+								report("reply", "arm/refused", "the task was refused or is not in the table");
+								continue;
+							}
+							const double want = (double)z * 86400.0 + (double)sod;
+							if (!allday && obs[0].at != want) {
+								report("armed-time", allday ? "arm/all-day" : "arm/timed", "armed for %.3f, the instant is %.0f (%+.0f s)", obs[0].at, want, obs[0].at - want);
+							} else if (allday && !(obs[0].at >= (double)z * 86400.0 && obs[0].at < (double)(z + 1) * 86400.0)) {
+								report("armed-time", "arm/all-day", "armed for %.3f, the day is %.0f..%.0f (%+.0f s from its start)", obs[0].at, (double)z * 86400.0, (double)(z + 1) * 86400.0, obs[0].at - (double)z * 86400.0);
+							}
+							VT->traces++;
+						}
+					}
+				}
+				fflush(stdout);
+				_exit(0);
+			}
+			int st;
+			while (waitpid(c, &st, 0) < 0 && errno == EINTR);
+			if (!(WIFEXITED(st) && WEXITSTATUS(st) == 0)) {
+				vd_viol("crash/arm", "daemon image died arming the days of %d (status %#x)", y, st);
+			}
+			vd_count("states", VT->transitions + 1);
+			vd_count("transitions", VT->transitions);
+			vd_count("traces", VT->traces);
+			vd_nontrivial();
+			if (vd_want_sample()) vd_sample("%d: every day armed as a DATE and at a second of the day", y);
+		}
+		return;
+	}
 	if (!strcmp(vd_opt("mode", "explore"), "sweep")) {
-		for (int N = 0; N <= 62 + 5; N++) {
+		for (int N = 0; N <= 62 + 5 + 54; N++) {
 			if (!vd_next()) continue;
 			vd_shape("sweep/N=%d", N);
 			memset(VT, 0, sizeof(*VT));
@@ -1650,8 +1805,10 @@ enumerate(void)
 					sweep_limit(N);
 				} else if (N <= 64) {
 					sweep_unlimited(N == 63 ? 64 : 65);
-				} else {
+				} else if (N <= 67) {
 					sweep_inherit(N - 65);
+				} else {
+					sweep_via_echsq((N - 68) % 27, 1 + (N - 68) / 27);
 				}
 				fflush(stdout);
 				_exit(0);
